@@ -2,7 +2,7 @@
    Only statements, closed by `exact`, each followed by Print Assumptions. *)
 From Coq Require Import NArith List Bool.
 From OFV Require Import Base.Cplx Base.Lin Sem.PauliSem Model.SymbolicOp Model.QubitOp
-  Sem.FermiSem Model.LadderOp Model.MajoranaOp Thm.C01.QubitSimplify Thm.C01.SymHom Thm.C01.QubitHom Thm.C01.FermiHom Thm.C01.GenTie Thm.C02.Bounded.
+  Sem.FermiSem Model.LadderOp Model.MajoranaOp Thm.C01.QubitSimplify Thm.C01.SymHom Thm.C01.QubitHom Thm.C01.FermiHom Thm.C01.IsingSimplify Thm.C01.GenTie Thm.C02.Bounded.
 Import ListNotations.
 
 (* _simplify denotes coefficient * the input word, for every word (any length, repeated qubits) *)
@@ -74,3 +74,11 @@ Proof. exact majorana_merge_sound_6. Qed.
 Theorem C01_majorana_sort_sound : forallb sort_ok (flat_map (iwords 4) (seq 0 5)) = true.
 Proof. exact majorana_sort_sound_4_4. Qed.
 Print Assumptions C01_majorana_sort_sound.
+
+(* IsingOperator._simplify: sound for every Z-word and canonical *)
+Theorem C01_ising_simplify_sound : forall t c s, all_Z t ->
+  cscale (fst (isimplify t c)) (apply_word (snd (isimplify t c)) s) = cscale c (apply_word t s).
+Proof. exact isimplify_sound. Qed.
+Theorem C01_ising_simplify_canonical : forall t c, canonical (snd (isimplify t c)).
+Proof. exact isimplify_canonical. Qed.
+Print Assumptions C01_ising_simplify_canonical.
